@@ -214,6 +214,9 @@ Example C18_atomics_and_channels :
   /\ raceb [Fork 0 1; AWr 0 0; ARd 1 0; AWr 1 0] = false
   /\ raceb [Fork 0 1; Wr 0 5; AWr 0 0; ARd 1 0; Rd 1 5] = false
   /\ raceb [Fork 0 1; Wr 0 5; Snd 0 7; Rcv 1 7; Rd 1 5] = false
-  /\ races [Fork 0 1; Wr 0 5; Rcv 1 7; Rd 1 5; Snd 0 7] = [(1, 3)].
+  /\ races [Fork 0 1; Wr 0 5; Rcv 1 7; Rd 1 5; Snd 0 7] = [(1, 3)]
+  (* the owner exits, WaitGroup.Wait returns, the stopping goroutine reads the owner's state *)
+  /\ raceb [Fork 0 1; Wr 1 5; WgDone 1 3; WgWait 0 3; Rd 0 5] = false
+  /\ races [Fork 0 1; Wr 1 5; WgWait 0 3; Rd 0 5; WgDone 1 3] = [(1, 3)].
 Proof. vm_compute. repeat split; reflexivity. Qed.
 Print Assumptions C18_atomics_and_channels.
